@@ -317,14 +317,6 @@ func actionFd(a string) (kind byte, fd int, text string) {
 	return
 }
 
-func (s *spec) putsToInputPipe(a string) bool {
-	_, fd, _ := actionFd(a)
-	if fd < 0 {
-		fd = 1
-	}
-	return s.upT != nil && s.table[fd] == s.upT
-}
-
 func (s *spec) action(a string) string {
 	kind, fd, text := actionFd(a)
 	if fd < 0 {
@@ -350,6 +342,10 @@ func (s *spec) action(a string) string {
 	default: // put
 		switch {
 		case t.kind != 0, t.ch == "closed", t.ch == "nil":
+			return "no-value-output"
+		case t == s.upT:
+			// the reading end of the form's input pipe is an input-only port
+			// too, wherever it has been duplicated to
 			return "no-value-output"
 		case t.ch == "c1":
 			s.o1v = append(s.o1v, text)
